@@ -1,8 +1,12 @@
 // C05 harness: one logical history, several physical layouts (batch partitions, persister and
-// merge-plan options, forced merge, close/reopen, older segment formats, memory vs disk); a family
-// of rich requests must return bit-identical answers on all of them (the property itself, an
-// implementation-vs-implementation comparison), every disk layout's event trace must be accepted
-// by the Coq scorch model and every layout's final contents must equal the replay.
+// merge-plan options, forced merges in the middle and at the end of the history, in-memory merges
+// followed by more batches, close/reopen, older segment formats, memory vs disk) under one of
+// several field mappings (term vectors on/off per field; numeric, boolean, datetime and
+// multi-valued keyword fields); a family of requests -- every query shape both as a rich scoring
+// request and as a Score:"none" request -- must return bit-identical answers on all of them (the
+// property itself, an implementation-vs-implementation comparison), every disk layout's event
+// trace must be accepted by the Coq scorch model and every layout's final contents must equal the
+// replay. Every search runs under a watchdog: a search that does not return is a violation.
 package main
 
 import (
@@ -11,10 +15,14 @@ import (
 	"math"
 	"os"
 	"sort"
+	"strconv"
 	"strings"
+	"sync/atomic"
 	"time"
 
 	"github.com/blevesearch/bleve/v2"
+	"github.com/blevesearch/bleve/v2/index/scorch"
+	"github.com/blevesearch/bleve/v2/mapping"
 	"github.com/blevesearch/bleve/v2/search"
 	"github.com/blevesearch/bleve/v2/search/query"
 
@@ -25,12 +33,29 @@ import (
 	"verifharness/internal/vrand"
 )
 
+// Mid is something done between two batches of a layout.
+type Mid struct {
+	After int    `json:"after"` // number of batches applied before it
+	Kind  string `json:"kind"`  // forcemerge (merge all file segments into one) | settle (wait until the persister has flushed / merged the in-memory segments)
+}
+
 type LayoutSpec struct {
 	Layout     sw.Layout `json:"layout"`
 	Cuts       []int     `json:"cuts"` // batch boundaries (indices into Ops); nil = one batch per op
 	OneBatch   bool      `json:"one_batch,omitempty"`
 	ForceMerge bool      `json:"force_merge,omitempty"`
 	Reopen     bool      `json:"reopen,omitempty"`
+	// LazyPlan: the background merge planner leaves small segments alone, so the root keeps one
+	// segment per batch / per merge product until a merge is forced
+	LazyPlan bool  `json:"lazy_plan,omitempty"`
+	Mid      []Mid `json:"mid,omitempty"`
+}
+
+// Schema is the field-mapping variant (zero value = sw.Mapping() for the fields it defines).
+type Schema struct {
+	BodyNoTV bool `json:"body_no_tv,omitempty"` // text field "body" without term vectors
+	TagNoTV  bool `json:"tag_no_tv,omitempty"`  // keyword field "tag" without term vectors
+	KwTV     bool `json:"kw_tv,omitempty"`      // multi-valued keyword field "kw" WITH term vectors
 }
 
 type In struct {
@@ -38,43 +63,93 @@ type In struct {
 	Ops     []sw.Op      `json:"ops"`
 	Layouts []LayoutSpec `json:"layouts"`
 	ReqSeed uint64       `json:"req_seed"`
+	Schema  Schema       `json:"schema"`
 }
 
 func gen(f vh.Flags, r *vrand.R, emit func(In)) {
-	n := f.N(14, 600)
+	n := f.N(15, 600)
 	for k := 0; k < n; k++ {
-		nids := r.Range(5, 12)
-		nops := r.Range(8, 40)
+		var nids, nops int
 		var ops []sw.Op
 		var ver int64
-		for i := 0; i < nops; i++ {
-			ver++
-			if r.Chance(3, 4) {
-				ops = append(ops, sw.Op{Kind: "index", ID: r.Intn(nids), Ver: ver})
-			} else {
-				ops = append(ops, sw.Op{Kind: "delete", ID: r.Intn(nids)})
+		if k%3 == 2 {
+			// insert-only history: every id written once, nothing deleted or overwritten
+			nops = r.Range(6, 26)
+			nids = nops
+			perm := make([]int, nids)
+			for i := range perm {
+				perm[i] = i
+			}
+			vrand.Shuffle(r, perm)
+			for i := 0; i < nops; i++ {
+				ver++
+				ops = append(ops, sw.Op{Kind: "index", ID: perm[i], Ver: ver})
+			}
+		} else {
+			nids = r.Range(5, 12)
+			nops = r.Range(8, 40)
+			for i := 0; i < nops; i++ {
+				ver++
+				if r.Chance(3, 4) {
+					ops = append(ops, sw.Op{Kind: "index", ID: r.Intn(nids), Ver: ver})
+				} else {
+					ops = append(ops, sw.Op{Kind: "delete", ID: r.Intn(nids)})
+				}
 			}
 		}
-		randCuts := func() []int {
-			var cuts []int
+		randCuts := func(den int) []int {
+			cuts := []int{}
 			for i := 1; i < nops; i++ {
-				if r.Chance(1, 3) {
+				if r.Chance(1, den) {
 					cuts = append(cuts, i)
 				}
 			}
 			return cuts
 		}
+		// mid-history actions for a layout with nb batches: 1-2 of them, never after the last batch
+		mids := func(nb int, kind string) []Mid {
+			lo := 1
+			if kind == "settle" && nb > 2 {
+				lo = 2 // at least two in-memory segments for the persister to merge
+			}
+			if nb < 2 {
+				return nil
+			}
+			ms := []Mid{{After: r.Range(lo, nb-1), Kind: kind}}
+			if nb > 3 && r.Chance(1, 3) {
+				a := r.Range(lo, nb-1)
+				if a != ms[0].After {
+					ms = append(ms, Mid{After: a, Kind: kind})
+				}
+			}
+			return ms
+		}
+		nb := func(cuts []int) int { return len(cuts) + 1 }
 		ls := []LayoutSpec{
 			{Layout: sw.Layout{Config: "scorch-mem"}, OneBatch: true},
-			{Layout: sw.Layout{Config: "scorch-disk", Opts: 0}},                                          // one batch per op
-			{Layout: sw.Layout{Config: "scorch-disk", Opts: r.Range(1, 4), Unsafe: true}, Cuts: randCuts()}, // piles of memory segments
-			{Layout: sw.Layout{Config: "scorch-disk", Opts: r.Range(1, 4)}, Cuts: randCuts(), ForceMerge: true},
-			{Layout: sw.Layout{Config: "scorch-disk", Opts: r.Intn(5)}, Cuts: randCuts(), Reopen: true},
+			{Layout: sw.Layout{Config: "scorch-disk", Opts: 0}},                                              // one batch per op
+			{Layout: sw.Layout{Config: "scorch-disk", Opts: r.Range(1, 4), Unsafe: true}, Cuts: randCuts(3)}, // piles of memory segments
+			{Layout: sw.Layout{Config: "scorch-disk", Opts: r.Range(1, 4)}, Cuts: randCuts(3), ForceMerge: true},
+			{Layout: sw.Layout{Config: "scorch-disk", Opts: r.Intn(5)}, Cuts: randCuts(3), Reopen: true},
 		}
+		// a file-merge product followed by segments of their own: forced merge(s) in the middle of
+		// the history, planner left lazy so that what follows stays as it was written
+		c1 := randCuts(2)
+		l1 := LayoutSpec{Layout: sw.Layout{Config: "scorch-disk"}, Cuts: c1, LazyPlan: true, Mid: mids(nb(c1), "forcemerge"), ForceMerge: true, Reopen: r.Chance(1, 3)}
+		if r.Chance(1, 4) {
+			l1.Layout.SegVer = r.Range(11, 16)
+		}
+		ls = append(ls, l1)
+		// an in-memory-merge product followed by more segments: unsafe batches pile up in front of a
+		// napping persister (1, 2 or 4 workers), which merges them in memory when it wakes; then more
+		c2 := randCuts(2)
+		l2 := LayoutSpec{Layout: sw.Layout{Config: "scorch-disk", Opts: vrand.Pick(r, []int{0, 1, 4}), Unsafe: true}, Cuts: c2, LazyPlan: true, Mid: mids(nb(c2), "settle"), ForceMerge: r.Bool()}
+		ls = append(ls, l2)
 		if r.Chance(1, 2) {
-			ls = append(ls, LayoutSpec{Layout: sw.Layout{Config: "scorch-disk", SegVer: r.Range(11, 16)}, Cuts: randCuts(), ForceMerge: r.Bool()})
+			ls = append(ls, LayoutSpec{Layout: sw.Layout{Config: "scorch-disk", SegVer: r.Range(11, 16)}, Cuts: randCuts(3), ForceMerge: r.Bool()})
 		}
-		emit(In{NIDs: nids, Ops: ops, Layouts: ls, ReqSeed: r.U64()})
+		emit(In{NIDs: nids, Ops: ops, Layouts: ls, ReqSeed: r.U64(),
+			Schema: Schema{BodyNoTV: r.Chance(1, 3), TagNoTV: r.Chance(1, 2), KwTV: r.Chance(1, 3)}})
 	}
 }
 
@@ -99,70 +174,377 @@ func batches(in In, l LayoutSpec) [][]sw.Op {
 	return out
 }
 
-// multiTerm[i]: request i contains a dictionary-expanded leaf (numeric range, prefix): its scores
-// depend on which terms of deleted-but-unmerged documents are still in the segment dictionaries
-// (known finding C05-score-multiterm-stale-dictionary), so only its score-free part is compared
-// strictly.
-var multiTerm = []bool{false, false, false, true, false, true}
+// ---------------------------------------------------------------- documents and mapping
 
-func requests(seed uint64) []*bleve.SearchRequest {
+// KW is the vocabulary of the multi-valued keyword field "kw": terms sharing prefixes, so that
+// term-range, prefix, regexp, wildcard and fuzzy queries expand to several dictionary terms that
+// are spread unevenly over the segments.
+var KW = []string{"ta", "tab", "tac", "tb", "tba", "tc", "tca", "td", "ua", "ub"}
+
+var whenBase = time.Date(2020, 1, 1, 12, 0, 0, 0, time.UTC)
+
+// docFor = sw.DocFor (the stored fields sw.StoredVersion checks) + unstored fields of the other
+// field types: kw (1-2 keywords), flag (boolean), when (datetime), m (numeric, 23 values).
+func docFor(id int, ver int64) map[string]interface{} {
+	d := sw.DocFor(id, ver)
+	h := (uint64(id)+1)*0x9E3779B97F4A7C15 ^ uint64(ver)*0xC2B2AE3D27D4EB4F
+	h ^= h >> 29
+	h *= 0xBF58476D1CE4E5B9
+	h ^= h >> 32
+	kws := []string{KW[h%uint64(len(KW))]}
+	if (h>>8)%3 == 0 {
+		kws = append(kws, KW[(h>>16)%uint64(len(KW))])
+	}
+	return map[string]interface{}{
+		"v": d.V, "body": d.Body, "tag": d.Tag, "n": d.N, "arr": d.Arr,
+		"kw":   kws,
+		"flag": (h>>24)&1 == 1,
+		"when": whenBase.AddDate(0, 0, int((h>>28)%6)).Format(time.RFC3339),
+		"m":    float64((h >> 36) % 23),
+	}
+}
+
+func mappingFor(sc Schema) mapping.IndexMapping {
+	m := sw.Mapping()
+	dm := m.(*mapping.IndexMappingImpl).DefaultMapping
+	dm.Properties["body"].Fields[0].IncludeTermVectors = !sc.BodyNoTV
+	dm.Properties["tag"].Fields[0].IncludeTermVectors = !sc.TagNoTV
+	kw := bleve.NewKeywordFieldMapping()
+	kw.Store, kw.IncludeInAll, kw.IncludeTermVectors = false, false, sc.KwTV
+	dm.AddFieldMappingsAt("kw", kw)
+	fl := bleve.NewBooleanFieldMapping()
+	fl.Store, fl.IncludeInAll = false, false
+	dm.AddFieldMappingsAt("flag", fl)
+	wh := bleve.NewDateTimeFieldMapping()
+	wh.Store, wh.IncludeInAll = false, false
+	dm.AddFieldMappingsAt("when", wh)
+	mm := bleve.NewNumericFieldMapping()
+	mm.Store, mm.IncludeInAll = false, false
+	dm.AddFieldMappingsAt("m", mm)
+	return m
+}
+
+var dictFieldsAll = []string{"body", "tag", "kw", "n", "m", "when", "flag"}
+
+func open(l LayoutSpec, sc Schema) (idx bleve.Index, path, dir string, err error) {
+	m := mappingFor(sc)
+	switch l.Layout.Config {
+	case "scorch-mem":
+		idx, err = bleve.NewUsing("", m, scorch.Name, scorch.Name, nil)
+		return
+	case "scorch-disk":
+		kvc := sw.ScorchConfig(l.Layout)
+		if l.LazyPlan {
+			kvc["scorchMergePlanOptions"] = map[string]interface{}{"MaxSegmentsPerTier": 1000, "FloorSegmentSize": 1}
+			if l.Layout.Unsafe {
+				po, _ := kvc["scorchPersisterOptions"].(map[string]interface{})
+				if po == nil {
+					po = map[string]interface{}{}
+				}
+				po["PersisterNapTimeMSec"] = 15
+				po["PersisterNapUnderNumFiles"] = 1000
+				kvc["scorchPersisterOptions"] = po
+			}
+		}
+		dir, err = os.MkdirTemp("", "vh_c05_")
+		if err != nil {
+			return
+		}
+		path = dir + "/idx"
+		idx, err = bleve.NewUsing(path, m, scorch.Name, scorch.Name, kvc)
+		return
+	}
+	return nil, "", "", fmt.Errorf("unknown config %q", l.Layout.Config)
+}
+
+// build fills and tags a batch like sw.Tagger.Build, with docFor documents.
+func build(t *sw.Tagger, idx bleve.Index, ops []sw.Op, tag bool) (*bleve.Batch, error) {
+	t.Seq++
+	b := idx.NewBatch()
+	vers := map[string]int64{}
+	for _, o := range ops {
+		switch o.Kind {
+		case "index":
+			if err := b.Index(sw.DocName(o.ID), docFor(o.ID, o.Ver)); err != nil {
+				return nil, err
+			}
+			vers[sw.DocName(o.ID)] = o.Ver
+		case "delete":
+			b.Delete(sw.DocName(o.ID))
+			delete(vers, sw.DocName(o.ID))
+		}
+	}
+	if tag {
+		b.SetInternal([]byte("__b"), []byte(strconv.FormatInt(t.Seq, 10)))
+	}
+	t.Vers[t.Seq] = vers
+	return b, nil
+}
+
+func rootSegs(idx bleve.Index) (mem, file int) {
+	im, _ := idx.StatsMap()["index"].(map[string]interface{})
+	if im == nil {
+		return -1, -1
+	}
+	a, _ := im["num_root_memorysegments"].(uint64)
+	b, _ := im["num_root_filesegments"].(uint64)
+	return int(a), int(b)
+}
+
+// rootEpoch: the epoch of the current root (stored under the root lock together with the root
+// swap, so a reader that sees a newer root is ordered after the store).
+func rootEpoch(idx bleve.Index) uint64 {
+	im, _ := idx.StatsMap()["index"].(map[string]interface{})
+	e, _ := im["CurRootEpoch"].(uint64)
+	return e
+}
+
+// settle waits (bounded) until no in-memory segment is left at the root. Only coverage depends
+// on it, never a verdict.
+func settle(idx bleve.Index) {
+	for i := 0; i < 150; i++ {
+		if m, _ := rootSegs(idx); m <= 0 {
+			return
+		}
+		time.Sleep(10 * time.Millisecond)
+	}
+}
+
+// ---------------------------------------------------------------- requests
+
+type reqSpec struct {
+	name    string
+	req     *bleve.SearchRequest
+	scoring bool
+	// fields whose dictionaries a multi-term leaf of the query expands (nil = no such leaf)
+	dict []string
+}
+
+type shape struct {
+	name string
+	mk   func() query.Query // a fresh query object per request
+	dict []string
+}
+
+func shapes(seed uint64) []shape {
 	r := vrand.New(seed)
 	w := func() string { return vrand.Pick(r, sw.Words) }
-	var reqs []*bleve.SearchRequest
-	mk := func(q query.Query, sortBy []string) *bleve.SearchRequest {
-		req := bleve.NewSearchRequestOptions(q, 100, 0, false)
-		req.SortBy(sortBy)
-		req.Fields = []string{"*"}
-		req.IncludeLocations = true
-		req.Highlight = bleve.NewHighlight()
-		req.AddFacet("tags", bleve.NewFacetRequest("tag", 5))
-		nf := bleve.NewFacetRequest("n", 5)
-		lo, mid, hi := 0.0, 3.0, 10.0
-		nf.AddNumericRange("low", &lo, &mid)
-		nf.AddNumericRange("high", &mid, &hi)
-		req.AddFacet("nums", nf)
-		return req
+	kwf := func() string { return vrand.Pick(r, KW) }
+	tagw := func() string { return vrand.Pick(r, sw.Words[:3]) }
+	yes, no := true, false
+	pb := func(b bool) *bool {
+		if b {
+			return &yes
+		}
+		return &no
 	}
-	m := bleve.NewMatchQuery(w() + " " + w())
-	m.SetField("body")
-	reqs = append(reqs, mk(m, []string{"-_score", "_id"}))
-	t := bleve.NewTermQuery(vrand.Pick(r, sw.Words[:3]))
-	t.SetField("tag")
-	reqs = append(reqs, mk(t, []string{"n", "-_id"}))
-	mp := bleve.NewMatchPhraseQuery(w() + " " + w())
-	mp.SetField("body")
-	bq := bleve.NewBooleanQuery()
-	m2 := bleve.NewMatchQuery(w())
-	m2.SetField("body")
-	bq.AddMust(m2)
-	m3 := bleve.NewMatchQuery(w())
-	m3.SetField("body")
-	bq.AddShould(m3)
-	bq.AddShould(mp)
-	t2 := bleve.NewTermQuery(vrand.Pick(r, sw.Words[:3]))
-	t2.SetField("tag")
-	bq.AddMustNot(t2)
-	reqs = append(reqs, mk(bq, []string{"-_score", "-n", "_id"}))
-	lo, hi := float64(r.Range(0, 3)), float64(r.Range(3, 7))
-	nr := bleve.NewNumericRangeQuery(&lo, &hi)
-	nr.SetField("n")
-	dq := bleve.NewDisjunctionQuery(nr, mp)
-	reqs = append(reqs, mk(dq, []string{"tag", "-n", "_id"}))
-	reqs = append(reqs, mk(bleve.NewMatchAllQuery(), []string{"-n", "_id"}))
-	pq := bleve.NewPrefixQuery(w()[:2])
-	pq.SetField("body")
-	small := mk(pq, []string{"n", "_id"})
-	small.Size = 3
-	small.From = 1
-	reqs = append(reqs, small)
+	term := func(t, f string) query.Query { q := bleve.NewTermQuery(t); q.SetField(f); return q }
+	match := func(s string) query.Query { q := bleve.NewMatchQuery(s); q.SetField("body"); return q }
+	phrase := func(s string) query.Query { q := bleve.NewMatchPhraseQuery(s); q.SetField("body"); return q }
+	numr := func(f string, lo, hi float64, li, hi_ bool) query.Query {
+		q := bleve.NewNumericRangeInclusiveQuery(&lo, &hi, pb(li), pb(hi_))
+		q.SetField(f)
+		return q
+	}
+	var out []shape
+	add := func(name string, dict []string, mk func() query.Query) { out = append(out, shape{name, mk, dict}) }
+
+	// the six shapes of the first version of this harness
+	m1 := w() + " " + w()
+	add("match2", nil, func() query.Query { return match(m1) })
+	t1 := tagw()
+	add("term-tag", nil, func() query.Query { return term(t1, "tag") })
+	ph, b1, b2, b3 := w()+" "+w(), w(), w(), tagw()
+	add("bool", nil, func() query.Query {
+		bq := bleve.NewBooleanQuery()
+		bq.AddMust(match(b1))
+		bq.AddShould(match(b2))
+		bq.AddShould(phrase(ph))
+		bq.AddMustNot(term(b3, "tag"))
+		return bq
+	})
+	nlo, nhi := float64(r.Range(0, 3)), float64(r.Range(3, 7))
+	add("or(numrange-n,phrase)", []string{"n"}, func() query.Query {
+		return bleve.NewDisjunctionQuery(numr("n", nlo, nhi, true, false), phrase(ph))
+	})
+	add("matchall", nil, func() query.Query { return bleve.NewMatchAllQuery() })
+	pfx := w()[:2]
+	add("prefix-body", []string{"body"}, func() query.Query { q := bleve.NewPrefixQuery(pfx); q.SetField("body"); return q })
+
+	// disjunctions / conjunctions of term leaves on every kind of field
+	k1, k2, k3 := kwf(), kwf(), kwf()
+	add("or(kw,kw,kw)", nil, func() query.Query {
+		return bleve.NewDisjunctionQuery(term(k1, "kw"), term(k2, "kw"), term(k3, "kw"))
+	})
+	t2, t3 := tagw(), tagw()
+	add("or(tag,tag)", nil, func() query.Query { return bleve.NewDisjunctionQuery(term(t2, "tag"), term(t3, "tag")) })
+	bw := w()
+	add("or(kw,tag,body)", nil, func() query.Query {
+		return bleve.NewDisjunctionQuery(term(k2, "kw"), term(t2, "tag"), term(bw, "body"))
+	})
+	add("or-min2(kw,tag,body,kw)", nil, func() query.Query {
+		d := bleve.NewDisjunctionQuery(term(k1, "kw"), term(t3, "tag"), term(bw, "body"), term(k3, "kw"))
+		d.SetMin(2)
+		return d
+	})
+	add("and(kw,tag)", nil, func() query.Query { return bleve.NewConjunctionQuery(term(k1, "kw"), term(t2, "tag")) })
+	add("and(body,tag)", nil, func() query.Query { return bleve.NewConjunctionQuery(term(bw, "body"), term(t3, "tag")) })
+	fb := r.Bool()
+	add("boolfield", nil, func() query.Query { q := bleve.NewBoolFieldQuery(fb); q.SetField("flag"); return q })
+	add("or(boolfield,kw)", nil, func() query.Query {
+		q := bleve.NewBoolFieldQuery(!fb)
+		q.SetField("flag")
+		return bleve.NewDisjunctionQuery(q, term(k3, "kw"))
+	})
+
+	// numeric and date ranges
+	n2lo := float64(r.Range(0, 5))
+	n2hi := n2lo + float64(r.Range(0, 3))
+	add("numrange-n-incl", []string{"n"}, func() query.Query { return numr("n", n2lo, n2hi, true, true) })
+	mlo := float64(r.Range(0, 18))
+	mhi := mlo + float64(r.Range(1, 12))
+	mli, mhi_ := r.Bool(), r.Bool()
+	add("numrange-m", []string{"m"}, func() query.Query { return numr("m", mlo, mhi, mli, mhi_) })
+	add("and(numrange-m,tag)", []string{"m"}, func() query.Query {
+		return bleve.NewConjunctionQuery(numr("m", mlo, mhi, true, true), term(t2, "tag"))
+	})
+	d0 := r.Range(0, 4)
+	d1 := d0 + r.Range(0, 3)
+	add("daterange", []string{"when"}, func() query.Query {
+		q := bleve.NewDateRangeInclusiveQuery(whenBase.AddDate(0, 0, d0).Add(-time.Hour), whenBase.AddDate(0, 0, d1).Add(time.Hour), pb(true), pb(true))
+		q.SetField("when")
+		return q
+	})
+
+	// dictionary enumerations: term range, prefix, regexp, wildcard, fuzzy
+	ra, rb := kwf(), kwf()
+	if ra > rb {
+		ra, rb = rb, ra
+	}
+	ria, rib := r.Bool(), r.Bool()
+	add("termrange-kw", []string{"kw"}, func() query.Query {
+		q := bleve.NewTermRangeInclusiveQuery(ra, rb, pb(ria), pb(rib))
+		q.SetField("kw")
+		return q
+	})
+	add("termrange-kw-all", []string{"kw"}, func() query.Query {
+		q := bleve.NewTermRangeInclusiveQuery("a", "z", pb(true), pb(true))
+		q.SetField("kw")
+		return q
+	})
+	wa, wb := w(), w()
+	if wa > wb {
+		wa, wb = wb, wa
+	}
+	add("termrange-body", []string{"body"}, func() query.Query {
+		q := bleve.NewTermRangeInclusiveQuery(wa, wb, pb(true), pb(true))
+		q.SetField("body")
+		return q
+	})
+	add("termrange-tag", []string{"tag"}, func() query.Query {
+		q := bleve.NewTermRangeInclusiveQuery("a", "zz", pb(true), pb(false))
+		q.SetField("tag")
+		return q
+	})
+	kp := vrand.Pick(r, []string{"t", "ta", "tb", "tc", "u", ""})
+	add("prefix-kw", []string{"kw"}, func() query.Query { q := bleve.NewPrefixQuery(kp); q.SetField("kw"); return q })
+	rx := vrand.Pick(r, []string{"t[a-c].*", "t.", ".a.?", "(ta|ub).*", ".*c.*", "[tu]b.*"})
+	add("regexp-kw", []string{"kw"}, func() query.Query { q := bleve.NewRegexpQuery(rx); q.SetField("kw"); return q })
+	brx := vrand.Pick(r, []string{".*eta", "[a-e].*", ".*l.*a", "(alpha|gamma|zeta)"})
+	add("regexp-body", []string{"body"}, func() query.Query { q := bleve.NewRegexpQuery(brx); q.SetField("body"); return q })
+	wc := vrand.Pick(r, []string{"t?", "t*a", "*b*", "?a*", "u*", "t??"})
+	add("wildcard-kw", []string{"kw"}, func() query.Query { q := bleve.NewWildcardQuery(wc); q.SetField("kw"); return q })
+	twc := vrand.Pick(r, []string{"*a", "*et*", "?????"})
+	add("wildcard-tag", []string{"tag"}, func() query.Query { q := bleve.NewWildcardQuery(twc); q.SetField("tag"); return q })
+	fz, fzn := kwf(), r.Range(1, 2)
+	add("fuzzy-kw", []string{"kw"}, func() query.Query {
+		q := bleve.NewFuzzyQuery(fz)
+		q.SetField("kw")
+		q.SetFuzziness(fzn)
+		return q
+	})
+	fzb := w()
+	add("fuzzy-body", []string{"body"}, func() query.Query {
+		q := bleve.NewFuzzyQuery(fzb)
+		q.SetField("body")
+		q.SetFuzziness(2)
+		return q
+	})
+	add("or(prefix-kw,term-tag)", []string{"kw"}, func() query.Query {
+		q := bleve.NewPrefixQuery("t")
+		q.SetField("kw")
+		return bleve.NewDisjunctionQuery(q, term(t1, "tag"))
+	})
+	return out
+}
+
+var richSorts = [][]string{
+	{"-_score", "_id"}, {"n", "-_id"}, {"-_score", "-n", "_id"}, {"tag", "-n", "_id"}, {"-n", "_id"}, {"n", "_id"},
+	{"-m", "_id"}, {"when", "-_score", "_id"}, {"flag", "m", "-_id"},
+}
+var plainSorts = [][]string{{"_id"}, {"-_score", "_id"}, {"-m", "_id"}, {"tag", "-_id"}, {"when", "n", "_id"}}
+
+func addFacets(req *bleve.SearchRequest, more bool) {
+	req.AddFacet("tags", bleve.NewFacetRequest("tag", 5))
+	nf := bleve.NewFacetRequest("n", 5)
+	lo, mid, hi := 0.0, 3.0, 10.0
+	nf.AddNumericRange("low", &lo, &mid)
+	nf.AddNumericRange("high", &mid, &hi)
+	req.AddFacet("nums", nf)
+	if more {
+		req.AddFacet("kws", bleve.NewFacetRequest("kw", 4))
+		df := bleve.NewFacetRequest("when", 3)
+		df.AddDateTimeRange("early", whenBase.AddDate(0, 0, -1), whenBase.AddDate(0, 0, 2))
+		df.AddDateTimeRange("late", whenBase.AddDate(0, 0, 2), whenBase.AddDate(0, 0, 9))
+		req.AddFacet("whens", df)
+	}
+}
+
+// requests: every shape twice -- as a rich scoring request (all stored fields, locations,
+// highlights, facets) and as a Score:"none" request without locations / highlights (the
+// configuration in which scorch's "unadorned" conjunction / disjunction optimisations apply).
+func requests(seed uint64) []reqSpec {
+	shs := shapes(seed)
+	r := vrand.New(seed ^ 0x5bd1e995)
+	var reqs []reqSpec
+	for i, sh := range shs {
+		rich := bleve.NewSearchRequestOptions(sh.mk(), 100, 0, false)
+		if i < 6 {
+			rich.SortBy(richSorts[i])
+		} else {
+			rich.SortBy(vrand.Pick(r, richSorts))
+		}
+		rich.Fields = []string{"*"}
+		rich.IncludeLocations = true
+		rich.Highlight = bleve.NewHighlight()
+		addFacets(rich, i >= 6 && r.Chance(1, 3))
+		if sh.name == "prefix-body" || (i >= 6 && r.Chance(1, 6)) {
+			rich.Size, rich.From = 3, 1
+		}
+		reqs = append(reqs, reqSpec{name: sh.name + "/rich", req: rich, scoring: true, dict: sh.dict})
+
+		plain := bleve.NewSearchRequestOptions(sh.mk(), 100, 0, false)
+		plain.Score = "none"
+		plain.SortBy(vrand.Pick(r, plainSorts))
+		switch r.Intn(3) {
+		case 0:
+			plain.Fields = []string{"v", "n"}
+		case 1:
+			addFacets(plain, r.Bool())
+		}
+		if r.Chance(1, 8) {
+			plain.Size, plain.From = 4, 2
+		}
+		reqs = append(reqs, reqSpec{name: sh.name + "/score-none", req: plain, scoring: false, dict: sh.dict})
+	}
 	return reqs
 }
 
 type hitC struct {
-	ID        string                 `json:"id"`
-	Score     uint64                 `json:"score_bits"`
-	Sort      []string               `json:"sort"`
-	Fields    map[string]interface{} `json:"fields"`
+	ID        string                      `json:"id"`
+	Score     uint64                      `json:"score_bits"`
+	Sort      []string                    `json:"sort"`
+	Fields    map[string]interface{}      `json:"fields"`
 	Locations search.FieldTermLocationMap `json:"locations"`
 	Fragments search.FieldFragmentMap     `json:"fragments"`
 }
@@ -200,19 +582,224 @@ func canon(res *bleve.SearchResult, noScores bool) string {
 	return string(b)
 }
 
+// wellFormed is the part of the statement one answer can be judged on by itself: no id twice,
+// Total = number of hits when the page covers everything.
+func wellFormed(rq *bleve.SearchRequest, res *bleve.SearchResult) string {
+	seen := map[string]bool{}
+	for _, h := range res.Hits {
+		if seen[h.ID] {
+			return "hit " + h.ID + " returned twice"
+		}
+		seen[h.ID] = true
+	}
+	if rq.From == 0 && len(res.Hits) < rq.Size && res.Total != uint64(len(res.Hits)) {
+		return fmt.Sprintf("Total=%d but %d hits on an unfilled first page", res.Total, len(res.Hits))
+	}
+	if res.Total < uint64(len(res.Hits)) {
+		return fmt.Sprintf("Total=%d < %d hits", res.Total, len(res.Hits))
+	}
+	return ""
+}
+
+// dictSig: the set of terms the index-level field dictionary enumerates for a field.
+func dictSig(idx bleve.Index, field string) (string, error) {
+	fd, err := idx.FieldDict(field)
+	if err != nil {
+		return "", err
+	}
+	defer fd.Close()
+	set := map[string]bool{}
+	for {
+		e, err := fd.Next()
+		if err != nil {
+			return "", err
+		}
+		if e == nil {
+			break
+		}
+		set[e.Term] = true
+	}
+	ts := make([]string, 0, len(set))
+	for t := range set {
+		ts = append(ts, strconv.Quote(t))
+	}
+	sort.Strings(ts)
+	return strings.Join(ts, ","), nil
+}
+
+// hasStale: some indexed version is no longer live at the end (deleted or overwritten): the only
+// histories in which a dictionary can still hold terms of documents that are gone.
+func hasStale(ops []sw.Op) bool {
+	live := map[int]bool{}
+	for _, o := range ops {
+		switch o.Kind {
+		case "index":
+			if live[o.ID] {
+				return true
+			}
+			live[o.ID] = true
+		case "delete":
+			if live[o.ID] {
+				return true
+			}
+		}
+	}
+	return false
+}
+
+// searchWatchdog bounds every single search. Searches here take milliseconds; the bound is far
+// above anything scheduling delays on a loaded machine produce. It is measured in ticks of a
+// goroutine of this process that sleeps 10 ms per tick, not in wall time: while the process as a
+// whole is not scheduled (starved, stopped) the watchdog does not advance either, and 4000 times
+// the ticker got the CPU while a search needing milliseconds of it did not finish means the
+// search does not end.
+const searchWatchdog = 40 * time.Second
+
+var ticks atomic.Int64
+
+func init() {
+	go func() {
+		for {
+			time.Sleep(10 * time.Millisecond)
+			ticks.Add(1)
+		}
+	}()
+}
+
+// guard runs fn under the tick watchdog; panics and overruns become Direct results.
+func guard(what string, fn func()) *vh.Direct {
+	done := make(chan *vh.Direct, 1)
+	go func() {
+		defer func() {
+			if e := recover(); e != nil {
+				done <- &vh.Direct{Kind: "panic", Detail: what + ": " + fmt.Sprint(e)}
+			}
+		}()
+		fn()
+		done <- nil
+	}()
+	start := ticks.Load()
+	limit := int64(searchWatchdog / (10 * time.Millisecond))
+	for {
+		select {
+		case r := <-done:
+			return r
+		case <-time.After(200 * time.Millisecond):
+			if ticks.Load()-start >= limit {
+				return &vh.Direct{Kind: "timeout", Detail: fmt.Sprintf("%s: no result within %v", what, searchWatchdog)}
+			}
+		}
+	}
+}
+
+var hung atomic.Bool // a search of this process never returned: its goroutine spins for good
+
+type view struct {
+	name  string
+	ans   []string // canonical answers, one per request
+	ansNS []string // the same with scores blanked
+	dict  map[string]string
+	// stable: the root epoch was the same before the first search and after the last dictionary
+	// enumeration, i.e. answers and dictionaries were read from one and the same root
+	stable bool
+}
+
 func exec(in In) vh.Result {
+	if hung.Load() {
+		// a search goroutine of an earlier input is spinning for ever; the run is a failure already
+		// and anything measured from here on would be distorted by it
+		return vh.Result{Skip: true}
+	}
 	reqs := requests(in.ReqSeed)
 	fail := func(e error) vh.Result {
 		return vh.Result{Direct: &vh.Direct{Kind: "error", Detail: e.Error()}}
 	}
 	var cases []cf.T
-	var answers, answersNS [][]string
-	var names []string
+	var views []view
 	totMem, totFile := 0, 0
 	nTraces := 0
 	nonEmpty := 0
+	prefixMerged := 0 // views taken on >= 2 root segments of a layout that had a merge before its last batches
+	maxSegs := 0
+	unstable := 0
+	var direct *vh.Direct
+
+	// take one view of the index: all requests + the field dictionaries
+	var take1 func(idx bleve.Index, name string, first bool) (view, *vh.Direct, error)
+	// Background merges / persists may replace the root while a view is being taken. All roots
+	// hold the same contents, so every answer counts whatever root it was computed on; but the
+	// dictionaries (which only serve to recognise the known class) must be those the answers were
+	// computed from, so the view is retaken until the epoch stands still (progress-bounded: the
+	// background work on these tiny indexes ends by itself).
+	take := func(idx bleve.Index, name string, first bool) (view, *vh.Direct, error) {
+		for try := 0; ; try++ {
+			e1 := rootEpoch(idx)
+			v, d, err := take1(idx, name, first && try == 0)
+			if d != nil || err != nil {
+				return v, d, err
+			}
+			if rootEpoch(idx) == e1 {
+				v.stable = true
+				return v, nil, nil
+			}
+			if try >= 60 {
+				unstable++
+				return v, nil, nil
+			}
+			time.Sleep(time.Duration(10+5*try) * time.Millisecond)
+		}
+	}
+	take1 = func(idx bleve.Index, name string, first bool) (view, *vh.Direct, error) {
+		v := view{name: name, dict: map[string]string{}}
+		for _, rs := range reqs {
+			var res *bleve.SearchResult
+			var err error
+			rq := rs.req
+			if d := guard("search", func() { res, err = idx.Search(rq) }); d != nil {
+				if d.Kind == "timeout" {
+					hung.Store(true)
+					qj, _ := json.Marshal(rq)
+					return v, &vh.Direct{Kind: "search-hang", Detail: fmt.Sprintf("request %s did not return within %v on layout [%s]: %s", rs.name, searchWatchdog, name, qj)}, nil
+				}
+				return v, d, nil
+			}
+			if err != nil {
+				// an error is an answer too: it must be the same on every layout
+				v.ans = append(v.ans, "ERR:"+err.Error())
+				v.ansNS = append(v.ansNS, "ERR:"+err.Error())
+				continue
+			}
+			if first && len(res.Hits) > 0 {
+				nonEmpty++
+			}
+			if w := wellFormed(rq, res); w != "" {
+				qj, _ := json.Marshal(rq)
+				return v, &vh.Direct{Kind: "answer-malformed", Detail: fmt.Sprintf("request %s on layout [%s]: %s: %s", rs.name, name, w, qj)}, nil
+			}
+			v.ans = append(v.ans, canon(res, false))
+			v.ansNS = append(v.ansNS, canon(res, true))
+		}
+		for _, f := range dictFieldsAll {
+			var s string
+			var err error
+			if d := guard("fielddict", func() { s, err = dictSig(idx, f) }); d != nil {
+				if d.Kind == "timeout" {
+					hung.Store(true)
+					d = &vh.Direct{Kind: "search-hang", Detail: fmt.Sprintf("FieldDict(%s) enumeration did not end within %v on layout [%s]", f, searchWatchdog, name)}
+				}
+				return v, d, nil
+			}
+			if err != nil {
+				return v, nil, err
+			}
+			v.dict[f] = s
+		}
+		return v, nil, nil
+	}
+
 	for li, l := range in.Layouts {
-		idx, path, dir, err := sw.Open(l.Layout)
+		tL := time.Now()
+		idx, path, dir, err := open(l, in.Schema)
 		if err != nil {
 			return fail(err)
 		}
@@ -226,20 +813,77 @@ func exec(in In) vh.Result {
 		if trace {
 			rec = strace.Start(path)
 		}
+		stopRec := func() {
+			if rec != nil {
+				rec.Stop()
+				rec = nil
+			}
+		}
 		tg := sw.NewTagger()
-		for _, ops := range batches(in, l) {
-			b, _, err := tg.Build(idx, ops, trace)
+		bs := batches(in, l)
+		merged := false
+		for bi, ops := range bs {
+			for _, m := range l.Mid {
+				if m.After == bi {
+					switch m.Kind {
+					case "forcemerge":
+						sw.ForceMerge(idx)
+						merged = true
+					case "settle":
+						settle(idx)
+						merged = true
+					}
+				}
+			}
+			b, err := build(tg, idx, ops, trace)
 			if err == nil {
 				err = idx.Batch(b)
 			}
 			if err != nil {
+				stopRec()
 				idx.Close()
 				cleanup()
 				return fail(err)
 			}
 		}
+		base := fmt.Sprintf("#%d %s/opts=%d/segver=%d/unsafe=%v/lazyplan=%v/mid=%v/batches=%d", li, l.Layout.Config, l.Layout.Opts, l.Layout.SegVer, l.Layout.Unsafe, l.LazyPlan, l.Mid, len(bs))
+		abort := func(d *vh.Direct, err error) vh.Result {
+			stopRec()
+			if d != nil && d.Kind == "search-hang" {
+				// the hung search holds the index's read lock: Close would block for ever
+				cleanup()
+				return vh.Result{Direct: d}
+			}
+			idx.Close()
+			cleanup()
+			if d != nil {
+				return vh.Result{Direct: d}
+			}
+			return fail(err)
+		}
+		if os.Getenv("VH_TIMING") != "" {
+			fmt.Fprintf(os.Stderr, "layout %s: built %v\n", base, time.Since(tL))
+		}
+		time.Sleep(20 * time.Millisecond)
+		mseg, fseg := rootSegs(idx)
+		if mseg+fseg > maxSegs {
+			maxSegs = mseg + fseg
+		}
+		if merged && mseg+fseg >= 2 {
+			prefixMerged++
+		}
+		v, d, err := take(idx, base+"/as-built", li == 0)
+		if d != nil || err != nil {
+			return abort(d, err)
+		}
+		views = append(views, v)
 		if l.ForceMerge {
 			sw.ForceMerge(idx)
+			v, d, err := take(idx, base+"/force-merged", false)
+			if d != nil || err != nil {
+				return abort(d, err)
+			}
+			views = append(views, v)
 		}
 		if l.Reopen {
 			if err := idx.Close(); err != nil {
@@ -251,88 +895,116 @@ func exec(in In) vh.Result {
 				cleanup()
 				return vh.Result{Direct: &vh.Direct{Kind: "reopen-failed", Detail: err.Error()}}
 			}
-		}
-		time.Sleep(20 * time.Millisecond)
-		var ans, ansNS []string
-		for _, rq := range reqs {
-			res, err := idx.Search(rq)
-			if err != nil {
-				idx.Close()
-				cleanup()
-				return fail(err)
+			v, d, err := take(idx, base+"/reopened", false)
+			if d != nil || err != nil {
+				return abort(d, err)
 			}
-			if li == 0 && len(res.Hits) > 0 {
-				nonEmpty++
-			}
-			ans = append(ans, canon(res, false))
-			ansNS = append(ansNS, canon(res, true))
+			views = append(views, v)
 		}
 		final, err := sw.DocVersions(idx, in.NIDs)
 		if err != nil {
-			idx.Close()
-			cleanup()
-			return fail(err)
+			return abort(nil, err)
 		}
 		obs, err := sw.Observe(idx, in.NIDs, 0)
 		if err != nil {
-			idx.Close()
-			cleanup()
-			return fail(err)
+			return abort(nil, err)
 		}
 		idx.Close()
 		if trace {
 			tr, mm, fm, _ := sw.TraceCase(rec, tg, in.NIDs, final)
-			rec.Stop()
+			stopRec()
 			totMem += mm
 			totFile += fm
 			cases = append(cases, tr)
 			nTraces++
 		}
+		if os.Getenv("VH_TIMING") != "" {
+			fmt.Fprintf(os.Stderr, "layout %s: total %v\n", base, time.Since(tL))
+		}
 		// contents of every layout = replay of the flat operation list
 		dops, _ := sw.OpsTerms(in.Ops)
 		cases = append(cases, cf.App("CHist", sw.Universe(in.NIDs), "[]", cf.List([]cf.T{cf.App("mkHStep", cf.List(dops), "[]", cf.Some(obs))})))
 		cleanup()
-		answers = append(answers, ans)
-		answersNS = append(answersNS, ansNS)
-		names = append(names, fmt.Sprintf("%s/opts=%d/segver=%d/unsafe=%v/forcemerge=%v/reopen=%v/batches=%d", l.Layout.Config, l.Layout.Opts, l.Layout.SegVer, l.Layout.Unsafe, l.ForceMerge, l.Reopen, len(batches(in, l))))
 	}
+
+	// compare every view with the first one (a single in-memory segment built from one batch)
+	stale := hasStale(in.Ops)
 	var known *vh.Direct
-	for li := 1; li < len(answers); li++ {
-		for qi := range reqs {
-			if multiTerm[qi] && answersNS[li][qi] == answersNS[0][qi] {
-				if answers[li][qi] != answers[0][qi] && known == nil {
-					known = &vh.Direct{Kind: "layout-score-differs", Detail: fmt.Sprintf(
-						"request #%d (dictionary-expanded multi-term leaf): scores differ between layout [%s] and layout [%s]; ids, order, fields, locations, fragments, facets identical", qi, names[0], names[li])}
-				}
+	for vi := 1; vi < len(views) && direct == nil; vi++ {
+		for qi, rs := range reqs {
+			const ref = 0
+			a, b := views[ref].ans[qi], views[vi].ans[qi]
+			if a == b {
 				continue
 			}
-			if answers[li][qi] != answers[0][qi] {
-				a, b := answers[0][qi], answers[li][qi]
-				// point at the first difference
-				p := 0
-				for p < len(a) && p < len(b) && a[p] == b[p] {
-					p++
+			// The one known class (C05-score-multiterm-stale-dictionary): a SCORING request with a
+			// dictionary-expanded leaf, on a history in which some version is no longer live, whose
+			// answers differ in nothing but scores, AND the two layouts' dictionaries of a field that
+			// leaf expands really enumerate different term sets. Everything else is a violation.
+			if rs.scoring && len(rs.dict) > 0 && stale && views[ref].ansNS[qi] == views[vi].ansNS[qi] {
+				dictDiffers := !views[vi].stable || !views[ref].stable // dictionaries unknown
+				for _, f := range rs.dict {
+					if views[ref].dict[f] != views[vi].dict[f] {
+						dictDiffers = true
+					}
 				}
-				if d := os.Getenv("VH_DEBUG"); d != "" {
-					os.WriteFile(d+"/a.json", []byte(a), 0o644)
-					os.WriteFile(d+"/b.json", []byte(b), 0o644)
+				if dictDiffers {
+					if known == nil {
+						known = &vh.Direct{Kind: "layout-score-differs", Detail: fmt.Sprintf(
+							"request %s (dictionary-expanded multi-term leaf): scores differ between layout [%s] and layout [%s], whose dictionaries of %v hold different term sets (terms of deleted documents); ids, order, fields, locations, fragments, facets identical", rs.name, views[ref].name, views[vi].name, rs.dict)}
+					}
+					continue
 				}
-				lo := max(0, p-120)
-				return vh.Result{Direct: &vh.Direct{Kind: "layout-differs",
-					Detail: fmt.Sprintf("request #%d answers differ between layout [%s] and layout [%s]: ...%s  VS  ...%s",
-						qi, names[0], names[li], a[lo:min(len(a), p+160)], b[lo:min(len(b), p+160)])}}
 			}
+			// point at the first difference
+			p := 0
+			for p < len(a) && p < len(b) && a[p] == b[p] {
+				p++
+			}
+			if d := os.Getenv("VH_DEBUG"); d != "" {
+				os.WriteFile(d+"/a.json", []byte(a), 0o644)
+				os.WriteFile(d+"/b.json", []byte(b), 0o644)
+			}
+			lo := max(0, p-120)
+			qj, _ := json.Marshal(rs.req)
+			kind := "layout-differs"
+			if views[ref].ansNS[qi] == views[vi].ansNS[qi] {
+				kind = "layout-score-differs-unexplained"
+			}
+			direct = &vh.Direct{Kind: kind,
+				Detail: fmt.Sprintf("request %s answers differ between layout [%s] and layout [%s]: ...%s  VS  ...%s  request=%s",
+					rs.name, views[ref].name, views[vi].name, a[lo:min(len(a), p+160)], b[lo:min(len(b), p+160)], qj)}
+			break
 		}
+	}
+	if direct != nil {
+		return vh.Result{Direct: direct}
 	}
 	class := ""
 	if known != nil {
 		class = "score-multiterm-stale-dictionary"
 	}
-	return vh.Result{Term: cf.App("CMulti", cf.List(cases)), Nontrivial: totMem+totFile > 0 && nonEmpty >= 3, Direct: known, Class: class, Traces: nTraces,
-		Hist: []string{"history", fmt.Sprintf("layouts=%d", len(in.Layouts)), fmt.Sprintf("mem_merges=%d", min(totMem, 6)), fmt.Sprintf("file_merges=%d", min(totFile, 9)), fmt.Sprintf("nonempty_requests=%d", nonEmpty)}}
+	hist := []string{"history", fmt.Sprintf("layouts=%d", len(in.Layouts)), fmt.Sprintf("views=%d", len(views)),
+		fmt.Sprintf("mem_merges=%d", min(totMem, 6)), fmt.Sprintf("file_merges=%d", min(totFile, 9)),
+		fmt.Sprintf("nonempty_requests=%d", nonEmpty/10*10), fmt.Sprintf("views_on_merge_product_plus_later_segments=%d", prefixMerged),
+		fmt.Sprintf("max_root_segments=%d", min(maxSegs, 12)/3*3)}
+	if unstable > 0 {
+		hist = append(hist, "views_with_moving_root")
+	}
+	if !stale {
+		hist = append(hist, "insert_only_history")
+	}
+	if in.Schema.BodyNoTV {
+		hist = append(hist, "schema:body_no_tv")
+	}
+	if in.Schema.TagNoTV {
+		hist = append(hist, "schema:tag_no_tv")
+	}
+	if in.Schema.KwTV {
+		hist = append(hist, "schema:kw_tv")
+	}
+	return vh.Result{Term: cf.App("CMulti", cf.List(cases)), Nontrivial: totMem+totFile > 0 && nonEmpty*3 >= len(reqs), Direct: known, Class: class, Traces: nTraces, Hist: hist}
 }
-
-var _ = strings.TrimSpace
 
 func main() {
 	vh.Main(vh.Config{
@@ -341,9 +1013,10 @@ func main() {
 		CaseType:  "Corr.case",
 		CheckFn:   "Corr.check",
 		ExplainFn: "Corr.explain",
-		Rule: "one logical history (8-40 index/delete ops over 5-12 ids) built in 5-6 physical layouts: single batch in memory; one batch per op on disk; random partitions with memory-merge-heavy persister options and unsafe batches; forced merge; close/reopen; older zap versions. " +
-			"Six rich requests (match / term / boolean with phrase / disjunction with numeric range / match-all / paged prefix; total sorts; all stored fields, locations, highlights, terms and numeric facets) are compared bit-for-bit across layouts (scores as IEEE bits); " +
-			"every disk layout's event trace goes to the Coq model, every layout's final contents to the replay spec. Non-trivial: at least one merge was introduced and at least 3 requests return hits",
+		Rule: "one logical history (8-40 index/delete ops over 5-12 ids, or an insert-only history of 6-26 ids) under a random field mapping (term vectors on/off for the text, keyword and multi-valued keyword fields; numeric, boolean, datetime fields) built in 7-8 physical layouts: single batch in memory; one batch per op on disk; random partitions with memory-merge-heavy persister options and unsafe batches; forced merge; close/reopen; " +
+			"forced merges in the middle of the history followed by more batches under a lazy merge planner (a file-merge product followed by plain segments); unsafe batches piling up before a napping persister with 1/2/4 workers, a pause, then more batches (an in-memory-merge product followed by more segments); older zap versions. Views are taken as built, after the final forced merge and after reopen. " +
+			"32 query shapes (match / term / boolean with phrase / disjunctions, min-2 disjunction and conjunctions of term leaves over all field kinds / numeric and date ranges / term range, prefix, regexp, wildcard, fuzzy over three fields / match-all), each as a rich scoring request (total sorts; all stored fields, locations, highlights, term, numeric and date facets; some paged) and as a Score:none request without locations, are compared bit-for-bit across all views (scores as IEEE bits); every answer must list no id twice; every search runs under a watchdog (a search that does not return is a violation); " +
+			"every disk layout's event trace goes to the Coq model, every layout's final contents to the replay spec. Non-trivial: at least one merge was introduced and at least a third of the requests return hits",
 		ShardSize: 1,
 		Workers:   6,
 	}, gen, exec)
